@@ -5,6 +5,10 @@
      op 3  Normal Rand  : mu sigma cnt { z Rand }*         z = NormFloat64() of a clone of the scripted source
      op 4  TDist grid   : V BoundsLo BoundsHi cnt { x PDF(x) CDF(x) GL }*
      op 5  DeltaDist    : T BoundsLo BoundsHi cnt { x PDF(x) CDF(x) }* cnt { y InvCDF(y) }*
+     op 6  CDF scan     : fn p1 p2 lo hi n cnt { xlo xhi CDF(xlo) CDF(xhi) }*     fn 1 normal (mu sigma), 2 t (V 0)
+   The pairs of op 6 are found by the harness's discontinuity hunt (harness/hb_scan.go) over n cells of
+   [lo,hi]; the first pair is the consecutive grid pair with the smallest increment.  Only the
+   reported pairs are judged: xlo < xhi must give CDF(xlo) <= CDF(xhi) + 1e-12, values in [0,1].
    GL = the harness's composite Gauss-Legendre quadrature of the implementation's PDF over
    [previous x, x] (NaN where not computed).  Grids are sorted and symmetric about the centre.
    Exact (M1): DeltaDist, Mean/Variance/Bounds, InvCDF special values, Rand, CDF at 0 and at
@@ -86,6 +90,24 @@ Fixpoint centre_ok (c : Q) (tol : Q) (pts : list gpoint) (i : Z) : option (Z * Z
 
 Definition p_gpoint : parser gpoint := do x <- pX; do p <- pX; do c <- pX; do g <- pX; pret (x, p, c, g).
 
+(* coverage bits of a grid: 4 a point at least zfar standard units from the centre, 8 at least
+   zext, 16 an infinite abscissa, 32 a NaN abscissa *)
+Fixpoint grid_bits (c s zfar zext : Q) (pts : list gpoint) (acc : Z) : Z :=
+  match pts with
+  | [] => acc
+  | (x, _, _, _) :: t =>
+      let b := match x with
+               | XNaN => 32%Z
+               | XInf _ => 16%Z
+               | XFin xq => let d := Qabs (xq - c) in
+                            if Qleb (zext * s) d then 12%Z else if Qleb (zfar * s) d then 4%Z else 0%Z
+               end in
+      grid_bits c s zfar zext t (Z.lor acc b)
+  end.
+
+Definition tail_deep : Q := 1 # (10 ^ 12)%positive.
+Definition tail_extreme : Q := 1 # (10 ^ 200)%positive.
+
 (* ---------- op 2: InvCDF ---------- *)
 (* codes: 1 special value, 2 not finite, 3 CDF(InvCDF p) <> p, 4 not monotone *)
 Fixpoint check_invcdf (mu sigma : Q) (pts : list (xreal * xreal * xreal * xreal)) (prev : option (Q * Q)) (i : Z) (tag : Z)
@@ -106,7 +128,10 @@ Fixpoint check_invcdf (mu sigma : Q) (pts : list (xreal * xreal * xreal * xreal)
                           | Some (pp, px) => if Qleb pp pq then Qleb (px - (tol_rel9 * sigma + tol_law * Qabs mu)) x else true
                           | None => true end in
               if negb mono then (tag, Some (i, 4%Z)) else
-              check_invcdf mu sigma t (Some (pq, x)) (i + 1)%Z (Z.lor tag 2)
+              (* coverage tag: which rational approximation (normaldist.go:100-115), how deep a tail *)
+              let rb := match invcdf_region_of pq with RCentral => 2%Z | RLow => 4%Z | RHigh => 8%Z end in
+              let tb := if Qltb pq tail_deep then (if Qltb pq tail_extreme then 48%Z else 16%Z) else 0%Z in
+              check_invcdf mu sigma t (Some (pq, x)) (i + 1)%Z (Z.lor tag (Z.lor rb tb))
           | _, _, _, _ => (tag, Some (i, 2%Z))
           end
       end
@@ -143,13 +168,27 @@ Fixpoint check_delta_inv (T : xreal) (pts : list (xreal * xreal)) (i : Z) : opti
 Definition near (e : Q) (scale : Q) (o : xreal) : bool :=
   match o with XFin v => within (4 * eps52 * scale) e v | _ => false end.
 
+(* ---------- op 6: monotonicity on the pairs located by the scan ---------- *)
+(* codes: 2 value outside [0,1] / not finite, 3 CDF(xlo) > CDF(xhi) + 1e-12 for xlo < xhi *)
+Fixpoint check_scan (pts : list (xreal * xreal * xreal * xreal)) (i : Z) : option (Z * Z) :=
+  match pts with
+  | [] => None
+  | (XFin a, XFin b, XFin fa, XFin fb) :: t =>
+      if negb (in01 fa && in01 fb) then Some (i, 2%Z)
+      else if Qltb a b && negb (Qleb (fa - tol_law) fb) then Some (i, 3%Z)
+      else if Qltb b a && negb (Qleb (fb - tol_law) fa) then Some (i, 3%Z)
+      else check_scan t (i + 1)%Z
+  | _ :: _ => Some (i, 2%Z)
+  end.
+
 Local Open Scope Z_scope.
 Inductive c05case :=
 | KNormal (mu sigma : Q) (mean var blo bhi : xreal) (pts : list gpoint)
 | KInv (mu sigma : Q) (pts : list (xreal * xreal * xreal * xreal))
 | KRand (mu sigma : Q) (pts : list (xreal * xreal))
 | KT (v : Q) (blo bhi : xreal) (pts : list gpoint)
-| KDelta (T : Q) (blo bhi : xreal) (pts : list (xreal * xreal * xreal)) (inv : list (xreal * xreal)).
+| KDelta (T : Q) (blo bhi : xreal) (pts : list (xreal * xreal * xreal)) (inv : list (xreal * xreal))
+| KScan (fn : Z) (p1 p2 lo hi : Q) (n : Z) (pts : list (xreal * xreal * xreal * xreal)).
 
 Definition p_line : parser c05case :=
   do id <- pZ; if negb (id =? 5) then (fun _ => None) else
@@ -160,16 +199,28 @@ Definition p_line : parser c05case :=
   else if op =? 4 then (do v <- pQ; do lo <- pX; do hi <- pX; do pts <- plist p_gpoint; pend (KT v lo hi pts))
   else if op =? 5 then (do T <- pQ; do lo <- pX; do hi <- pX; do pts <- plist (do x <- pX; do p <- pX; do c <- pX; pret (x, p, c));
                         do inv <- plist (do y <- pX; do v <- pX; pret (y, v)); pend (KDelta T lo hi pts inv))
+  else if op =? 6 then (do fn <- pZ; do p1 <- pQ; do p2 <- pQ; do lo <- pQ; do hi <- pQ; do n <- pZ;
+                        do pts <- plist (do a <- pX; do b <- pX; do fa <- pX; do fb <- pX; pret (a, b, fa, fb));
+                        pend (KScan fn p1 p2 lo hi n pts))
   else (fun _ => None).
 
 Local Open Scope Q_scope.
-(* tags: 64*op + bits *)
+(* tags: 64*op + bits
+   op 1 (64):  +1 standard normal / +2 other parameters, +4 a point >= 8 sigma out, +8 a point >= 37 sigma out
+               (CDF underflows below -38.5), +16 infinite abscissa, +32 NaN abscissa
+   op 2 (128): +1 special values seen, +2 central approximation, +4 lower-tail approximation, +8 upper-tail
+               approximation, +16 a probability below 1e-12, +32 (with 16) below 1e-200
+   op 3 (192): Rand
+   op 4 (256): +1 V < 1 / +2 integer V / +3 half-integer V / +4 other V >= 1, +8 V > 200,
+               +16 a point with |x| >= 100 or an infinite abscissa, +32 NaN abscissa
+   op 5 (320): DeltaDist
+   op 6 (384): +1 normal CDF scan / +2 t CDF scan, +4 a candidate jump was located and judged *)
 Definition check_C05 (line : list Z) : list Z :=
   match p_line line with
   | None => verdict V_MALFORMED 0 (-1) []
   | Some (KNormal mu sg me va lo hi pts, _) =>
       if negb (Qltb 0 sg) then verdict V_MALFORMED 0 (-1) [] else
-      let tag := (64 + (if Qeqb mu 0 && Qeqb sg 1 then 1 else 2))%Z in
+      let tag := (64 + (if Qeqb mu 0 && Qeqb sg 1 then 1 else 2) + grid_bits mu sg 8 37 pts 0)%Z in
       let '(elo, ehi) := normal_bounds mu sg in
       if negb (xsame (XFin (normal_mean mu sg)) me) then verdict V_MISMATCH tag (-1) [10%Z]
       else if negb (near (normal_variance mu sg) (sg * sg) va) then verdict V_MISMATCH tag (-1) [11%Z]
@@ -194,7 +245,11 @@ Definition check_C05 (line : list Z) : list Z :=
       end
   | Some (KT v lo hi pts, _) =>
       if negb (Qltb 0 v) then verdict V_MALFORMED 0 (-1) [] else
-      let tag := (256 + (if Qltb v 1 then 1 else if Qeqb v (inject_Z (Qfloor v)) then 2 else 4))%Z in
+      let vclass := if Qltb v 1 then 1%Z else if Qeqb v (inject_Z (Qfloor v)) then 2%Z
+                    else if Qeqb (2 * v) (inject_Z (Qfloor (2 * v))) then 3%Z else 4%Z in
+      let gb := grid_bits 0 1 100 100 pts 0 in
+      let tag := (256 + vclass + (if Qltb 200 v then 8 else 0)
+                  + (if Z.testbit gb 2 || Z.testbit gb 4 then 16 else 0) + (if Z.testbit gb 5 then 32 else 0))%Z in
       let '(elo, ehi) := tdist_bounds in
       if negb (xsame (XFin elo) lo && xsame (XFin ehi) hi) then verdict V_MISMATCH tag (-1) [12%Z]
       else match check_grid 0 pts with
@@ -214,4 +269,15 @@ Definition check_C05 (line : list Z) : list Z :=
                      | None => verdict V_OK 320 (-1) []
                      end
            end
+  | Some (KScan fn p1 p2 lo hi n pts, _) =>
+      if negb (((fn =? 1) || (fn =? 2))%Z && Qltb lo hi && (8 <=? n)%Z) then verdict V_MALFORMED 0 (-1) [] else
+      (* +4: the hunt located at least one candidate jump besides the smallest grid increment *)
+      let tag := (384 + fn + (if (2 <=? Z.of_nat (length pts))%Z then 4 else 0))%Z in
+      match pts with
+      | [] => verdict V_MISMATCH tag (-1) [2%Z]        (* the scan must report its smallest increment *)
+      | _ => match check_scan pts 0 with
+             | Some (i, c) => verdict V_MISMATCH tag i [c]
+             | None => verdict V_OK tag (-1) []
+             end
+      end
   end.
